@@ -36,6 +36,8 @@ structure J where
   prod : List ((String × String × Int) × Nat) := []     -- (key, entry, timestamp) ↦ event that produced this entry version
   created : List ((String × String × Int) × Nat) := []  -- (key, entry, tombstone timestamp) ↦ first removal event that created it
   forged : Bool := false                          -- a corrupted message decoded to content no writer produced
+  collected : Tombs := []                         -- tombstones discarded after their retention (legitimately)
+  nGcRes : Nat := 0                               -- an entry came back after its tombstone was collected (allowed; observation)
   nLearnt : Nat := 0                              -- tombstones a node learned from a message without ever having shown the entry
   nTomb : Nat := 0
   nBlocked : Nat := 0
@@ -64,6 +66,9 @@ def checkSnap (conf : Conf) (j : J) (n : Nat) (tn : Int) (sn : Snap) : J := Id.r
       if es.any (·.2.2.1) then j := { j with nStripped := j.nStripped + 1 }
     -- (b) no resurrection while the tombstone is retained
     for (name, ts, tomb, _) in es do
+      match tombGet j.collected (n, k, name) with
+      | some t => if !tomb ∧ ts ≤ t then j := { j with nGcRes := j.nGcRes + 1, collected := j.collected.filter (·.1 != (n, k, name)) }
+      | none => pure ()
       match tombGet j.tombs (n, k, name) with
       | some t =>
         -- the entry version now visible was produced before the removal whose tombstone the node holds
@@ -86,7 +91,7 @@ def checkSnap (conf : Conf) (j : J) (n : Nat) (tn : Int) (sn : Snap) : J := Id.r
       if !present then
         -- a tombstone that vanished before its retention stays on record: the entry must still not come back
         if conf.lit == 0 ∨ t ≥ tn - conf.lit + 2 then j := j.flag s!"tombstone-discarded-before-retention:{k}/{name}"
-        else j := { j with tombs := j.tombs.filter (·.1 != (n', k, name)) }
+        else j := { j with tombs := j.tombs.filter (·.1 != (n', k, name)), collected := tombSet j.collected (n', k, name) t }
   return setPrev j n sn.store
 
 def isTombVal (s : String) : Bool :=
@@ -117,6 +122,8 @@ def learn (conf : Conf) (tn : Int) (j : J) (n : Nat) (m : Msg Val) : J := Id.run
     | none, _ => true
   if !kindOk then return j
   for (name, t, tomb, _) in ents m.val do
+    -- a tombstone that is already older than the retention when it arrives is collected on the spot
+    if tomb ∧ !(conf.lit == 0 ∨ t ≥ tn - conf.lit + 2) then j := { j with collected := tombSet j.collected (n, m.key, name) t }
     if tomb ∧ (conf.lit == 0 ∨ t ≥ tn - conf.lit + 2) then
       let known := match findEnt before name with
         | some (ts, tb) => ts > t || (ts == t && tb)
@@ -249,7 +256,7 @@ def judge (conf : Conf) (evs obs : List String) : J := Id.run do
             | none => pure ()
         j := checkSnap conf j b tn sn
       | _, _, _ => j := j.flag "unparsable-observation"
-    | ["ppx", _, b, mode, _], [_, pairs, _, snapB] =>
+    | ["ppx", _, b, mode, _], [_, pairs, _, snapB, _] =>
       if mode != "trunc" ∧ (pairs.splitOn "|").any (·.startsWith "ok:") then j := { j with forged := true }
       match b.toNat?, parseSnap snapB with
       | some b, some sn => j := checkSnap conf j b tn sn
@@ -289,7 +296,7 @@ def handleRun (f : List String) : String × String × String :=
     let (_, d) := replay conf evs obs
     let j := judge conf evs obs
     let bad := j.bad.eraseDups
-    let tags := s!"n={conf.n} learnt={bucket j.nLearnt} tomb={bucket j.nTomb} blocked={bucket j.nBlocked} samesec={bucket j.nSame} stripped={bucket j.nStripped} lit={conf.lit} gc={bit conf.gc} skew={bit conf.skew} sl={bucket (countEv evs "sl")} rs={bucket (countEv evs "rs!")}"
+    let tags := s!"n={conf.n} gcres={bucket j.nGcRes} learnt={bucket j.nLearnt} tomb={bucket j.nTomb} blocked={bucket j.nBlocked} samesec={bucket j.nSame} stripped={bucket j.nStripped} lit={conf.lit} gc={bit conf.gc} skew={bit conf.skew} sl={bucket (countEv evs "sl")} rs={bucket (countEv evs "rs!")}"
     (d.getD "-", if bad.isEmpty then "-" else ",".intercalate bad, tags)
   | _ => ("bad-fields", "-", "-")
 
